@@ -48,7 +48,7 @@ pub fn def() -> PropDef {
         id: "C12",
         run,
         quick_runs: 40000,
-        thorough_runs: 600_000,
+        thorough_runs: 1_500_000,
         level: "exploration",
         rule: "a live daemon (1-2 rings, one or two workers, VringMutex/VringRwLock, Mutex/RwLock adapter, REPLY_ACK + NEED_REPLY so that every control message is answered) with three concurrent parties: a VMM task sending 1..6 of {ENABLE 0, ENABLE 1, GET_VRING_BASE + restart with a fresh kick fd, RESET_DEVICE + renegotiate + ENABLE 1} without waiting for quiescence, a guest task raising 1..6 kicks on the ring's current kick descriptor at arbitrary steps, and the real worker/daemon threads; schedules: random, PCT (d<=3), sticky, with forced switches after 'state changed', 'epoll returned', 'before read_kick', 'before dispatch'; safety oracle evaluated inside handle_event (dispatch after the VMM saw the reply to a disabling/stopping message and before it sent an enabling one), liveness oracle at final quiescence after all rings were re-activated (last kick on the current descriptor must be followed by a dispatch); distinct = distinct (workload tape, interleaving, fault trace); non-trivial = a scheduling choice existed",
         assumptions: ASSUME,
